@@ -98,7 +98,9 @@ func runBatch(c *core.Ctx, spec *batchSpec) (*batchOutcome, error) {
 	for _, u := range append([]*ws.Unit{}, w.Units...) {
 		if u.BuildErr != "" || u.VetErr != "" {
 			out.Broken = append(out.Broken, u)
-			if u.BuildErr != "" || !spec.KeepBroken {
+			// a package that compiles but fails vet still runs (the batch binary is built with -vet=off):
+			// C13 judges the vet report, the runtime checks judge what the code does
+			if u.BuildErr != "" {
 				w.RemoveUnit(u)
 			}
 		}
